@@ -42,6 +42,8 @@ type step struct {
 	Who    int             `json:"who"`
 	Kind   string          `json:"kind"`
 	Defect string          `json:"defect"`
+	Target string          `json:"target"`
+	Parts  []string        `json:"parts"`
 }
 
 func (s step) res() string {
@@ -293,6 +295,40 @@ func TestReplay(t *testing.T) {
 					}
 				}
 				verr, panicked = call(func() error { return w.pc.Verify(w.dHash, pf) })
+				if len(steps) > 1 && steps[1].Op == "reverify" && panicked == "" {
+					// history on ONE context object: the same proof and its parts presented again, for this or for another decision
+					rv := steps[1]
+					hash := w.dHash
+					if rv.Target == "d2" {
+						hash = w.other
+					}
+					rerr, rp := call(func() error { return w.pc.Verify(hash, pf) })
+					rdet := map[string]interface{}{"behaviour": steps, "uid": uid, "wire": fmt.Sprintf("%x", wire), "target": rv.Target,
+						"spec": rv.res(), "real": fmt.Sprint(rerr), "first": fmt.Sprint(verr)}
+					switch {
+					case rp != "":
+						violation(id, "btpproof:replayed:panic", fmt.Sprintf("%s Verify panics when the proof is presented again for %s: %s", uid, rv.Target, firstLine(rp)), rdet)
+					case rerr == nil && rv.res() != "ok":
+						violation(id, "btpproof:replayed:accepted:"+rv.res(), fmt.Sprintf("%s proof context accepts for decision %s a proof it has verified before for d1 "+
+							"(the spec rejects: %s): %s", uid, rv.Target, rv.res(), sigOf(uid, s)), rdet)
+					case rerr != nil && rv.res() == "ok":
+						out.Divergence(id, fmt.Sprintf("%s proof context rejects on the second presentation a proof the spec accepts: %s: %v", uid, sigOf(uid, s), rerr), rdet)
+					}
+					for i, want := range rv.Parts {
+						if want == "none" || i >= len(wp.Signatures) || wp.Signatures[i] == nil {
+							continue
+						}
+						pp, err := w.pc.NewProofPartFromBytes(codec.MustMarshalToBytes(&wirePart{i, wp.Signatures[i]}))
+						if err != nil {
+							return fmt.Errorf("case %d: part does not decode: %v", idx, err)
+						}
+						perr, pp2 := call(func() error { _, e := w.pc.VerifyPart(hash, pp); return e })
+						if pp2 == "" && perr == nil && want != "ok" {
+							violation(id, "btppart:replayed:accepted:"+want, fmt.Sprintf("%s proof context accepts for decision %s the part of slot %d that it has "+
+								"verified before for d1 (the spec rejects: %s): %s", uid, rv.Target, i, want, sigOf(uid, s)), rdet)
+						}
+					}
+				}
 			case "verifypart":
 				sg, note, err := w.sig(crnd, s.Part)
 				if err != nil {
